@@ -45,7 +45,8 @@ PROBES = ["kind:p2pk", "kind:p2pkh", "kind:multisig", "kind:p2sh-multisig", "kin
           "wire_hex", "wire_bin", "wire_unspents", "txid_stable_after_witness_sign", "digest_at_seam_checked",
           "sighash_direct_256", "codeseparator_script", "noncommitted_change_still_valid", "committed_change_invalidates",
           "revalidate_fresh_equal", "default_flags_verdict_checked", "inputs>=253", "spendable_form_text", "spendable_form_dict", "spendable_form_bin", "wire_big_inputs", "wire_big_outputs",
-          "wire_big_out_script", "wire_big_in_script", "wire_big_witness_item", "wire_big_witness_count"]
+          "wire_big_out_script", "wire_big_in_script", "wire_big_witness_item", "wire_big_witness_count",
+          "oneshot_create_signed_tx", "oneshot_refused_missing_key"]
 # (wire_tx_* probes are fired by the wire_tx step, which only the S-WIRE planner emits; they are declared there)
 
 _STD = None
@@ -157,7 +158,8 @@ def gen_plan(rng, tier, index, config=None):
     allkeys = list(range(len(keys)))
     while len(steps) < nsteps:
         op = r.weighted([("sign", 8), ("send", 3), ("validate", 5), ("tamper", 5), ("revert", 2), ("sighash", 2),
-                         ("readonly", 1), ("permute", 1), ("fork", 1), ("spendables", 1), ("wire_big", 0.4)])
+                         ("readonly", 1), ("permute", 1), ("fork", 1), ("spendables", 1), ("wire_big", 0.4),
+                         ("oneshot", 1.2 if net != "GRS" else 0)])
         cp = "c%d" % r.below(ncopies)
         if op == "sign":
             sub = r.weighted([("all", 3), ("some", 5), ("one", 3), ("wrong", 1), ("none", 0.5)])
@@ -218,6 +220,13 @@ def gen_plan(rng, tier, index, config=None):
         elif op == "spendables":
             steps.append({"op": "spendables", "copy": cp, "form": r.pick(["text", "dict", "bin"]), "bia": r.pick([0, 1, 500000]),
                           "spent": r.chance(0.2), "bis": r.pick([0, 0, 600000])})
+        elif op == "oneshot":
+            # the one-call path: create_signed_tx from spendables, payables and WIFs
+            ks = allkeys if r.chance(0.6) else [k for k in allkeys if r.chance(0.6)]
+            steps.append({"op": "oneshot", "dst": "c%d" % ncopies, "keys": ks, "pay": [r.below(len(keys)) for _ in range(r.between(1, 3))],
+                          "fee": r.pick([0, 0, 1, 500]), "version": r.pick([1, 2]), "locktime": r.pick([0, 0, 400000]),
+                          "form": r.pick(["obj", "text", "dict"])})
+            ncopies += 1
         elif op == "permute":
             passes = []
             for _ in range(r.between(2, 4)):
@@ -579,6 +588,7 @@ def _op_build(ctx, W, st):
         raise Abort()
     W.copies[st["copy"]] = _Copy(tx, m, unspents)
     W.copies[st["copy"]].specs = [dict(x) for x in st["inputs"]]
+    W.built0 = ([dict(x) for x in st["inputs"]], copy.deepcopy(m["ins"]), copy.deepcopy(unspents))
     ctx.obs("build", W.txid(m)[::-1].hex())
 
 
@@ -1573,7 +1583,75 @@ def _op_permute(ctx, W, st):
         ctx.violate("C05", "validity-depends-on-signing-order", {"in_order": results[0], "permuted": results[1], "perm": st["perm"]})
 
 
-_OPS = {"build": _op_build, "sign": _op_sign, "validate": _op_validate, "fork": _op_fork, "send": _op_send,
+def _op_oneshot(ctx, W, st):
+    """create_signed_tx: spendables + payables + WIFs in one call.  It either returns a transaction every input of which is
+    valid, or raises; what it returns differs from create_tx's result in unlocking data only."""
+    from pycoin.solve.utils import build_p2sh_lookup
+    from pycoin.coins.tx_utils import SecretExponentMissing
+    b0 = getattr(W, "built0", None)
+    if b0 is None or not hasattr(W.net, "tx_utils") or W.single:
+        return
+    specs, ins, unspents = b0
+    total = sum(u["value"] for u in unspents)
+    npay = len(st["pay"])
+    if total >= (1 << 63) or total - st["fee"] < npay:
+        return
+    S = W.Tx.Spendable
+    spendables = [S(u["value"], u["script"], i["prev"], i["idx"]) for u, i in zip(unspents, ins)]
+    if st.get("form") == "text":
+        spendables = [x.as_text() for x in spendables]
+    elif st.get("form") == "dict":
+        spendables = [x.as_dict() for x in spendables]
+    payables = [W.net.address.for_p2pkh(sv.hash160(_sec(W, k))) for k in st["pay"] if k < len(W.keys)]
+    if not payables:
+        return
+    supplied = set(k for k in st["keys"] if 0 <= k < len(W.keys))
+    wifs = [W.net.keys.private(W.keys[k]["d"], is_compressed=W.keys[k]["compressed"]).wif() for k in sorted(supplied)]
+    satisfiable = all(len(set(sp["keys"]) & supplied) >= sp["m"] for sp in specs)
+    ctx.probe("oneshot_create_signed_tx")
+    kw = dict(fee=st["fee"], lock_time=st["locktime"], version=st["version"])
+    try:
+        unsigned = W.net.tx_utils.create_tx(spendables, payables, **kw)
+    except Exception as e:
+        ctx.violate("C05", "sign-raised", {"exc": type(e).__name__, "msg": str(e)[:200], "when": "create_tx"})
+        return
+    W.rec.signed.clear()
+    try:
+        tx = W.net.tx_utils.create_signed_tx(spendables, payables, wifs=wifs, p2sh_lookup=build_p2sh_lookup(W.scripts), **kw)
+    except SecretExponentMissing as e:
+        ctx.obs("oneshot", "SecretExponentMissing")
+        if satisfiable:
+            ctx.violate("C05", "oneshot-refused-although-keys-supplied", {"msg": str(e)[:160], "kinds": [sp["kind"] for sp in specs]})
+        else:
+            ctx.probe("oneshot_refused_missing_key")
+            ctx.nontrivial = True
+        return
+    except Exception as e:
+        ctx.violate("C05", "sign-raised", {"exc": type(e).__name__, "msg": str(e)[:200], "when": "create_signed_tx"})
+        return
+    m, u = _read_obj(tx)
+    mu, uu = _read_obj(unsigned)
+    ctx.obs("oneshot", W.txid(m)[::-1].hex())
+    if not satisfiable:
+        ctx.violate("C05", "oneshot-returned-with-unsigned-input", {"supplied": sorted(supplied), "kinds": [sp["kind"] for sp in specs]})
+    stripped = copy.deepcopy(m)
+    for i in stripped["ins"]:
+        i["script"], i["witness"] = b"", []
+    if stripped != mu or u != uu:
+        ctx.violate("C05", "signing-changed-other-field", {"field": "create_signed_tx differs from create_tx outside unlocking data"})
+    n = _Copy(tx, m, u)
+    n.specs = [dict(x) for x in specs]
+    W.copies[st["dst"]] = n
+    verdicts = _verdicts(W, n)
+    if satisfiable:
+        for j, v in enumerate(verdicts):
+            if v.valid is False:
+                ctx.violate("C05", "valid-iff-m-signatures", {"input": j, "kind": specs[j]["kind"], "m": specs[j]["m"], "signed": sorted(v.signed),
+                                                              "valid": False, "why": v.why, "when": "oneshot"})
+    _compare_verdicts(ctx, W, n, verdicts, "after-sign")
+
+
+_OPS = {"oneshot": _op_oneshot, "build": _op_build, "sign": _op_sign, "validate": _op_validate, "fork": _op_fork, "send": _op_send,
         "tamper": _op_tamper, "revert": _op_revert, "sighash": _op_sighash, "readonly": _op_readonly, "permute": _op_permute,
         "spendables": _op_spendables, "wire_big": _op_wire_big, "wire_tx": _op_wire_tx}
 
